@@ -44,7 +44,7 @@ type scriptObs struct {
 	unparseOK            bool
 	unparsed             []byte
 	asm                  string
-	asmPanic             bool
+	asmPanic, asmOK      bool
 	fromAsmOK            bool
 	fromAsm              []byte
 	hexOK, jsonOK        bool
@@ -286,6 +286,7 @@ func observe(s []byte) *scriptObs {
 	} else if aerr != nil {
 		sb.WriteString(";A-;N-")
 	} else {
+		o.asmOK = true
 		sb.WriteString(";A+" + sg.Sabbr(o.asm))
 		var back *bscript.Script
 		var nerr error
@@ -382,6 +383,8 @@ func predicates(s []byte, o *scriptObs) {
 	}
 	// the parse is the one the grammar prescribes: tokens, conditional depth, early end at a top-level OP_RETURN (conddepth.go)
 	grammarPredicates(s, o)
+	// DecodeParts / DecodeStringParts / ToASM against the push grammar stated independently (shaped.go)
+	decodePredicates(s, o)
 	if !o.decPanic && !o.parsePanic && !sg.HasOpReturn(s) {
 		if o.decOK != o.parseOK {
 			c.Violate("DecodeParts/Parse-disagree", fmt.Sprintf("DecodeParts ok=%v, Parse ok=%v on a script without OP_RETURN", o.decOK, o.parseOK), in)
@@ -858,7 +861,11 @@ func main() {
 		hexCase("random", h)
 	}
 
-	c.Stats.Rule = "(1) every byte string of length <= 2 run through DecodeParts, Parse (with and without ErrorOnCheckSig), Unparse, ToASM, NewFromASM, hex and JSON on the Go side (65 793; <= 3 bytes in thorough, Go-level predicates only), the model evaluated on all of length <= 1 plus the seed-chosen residue class mod 8 of the 2-byte ones in quick and on all in thorough; (2) EncodeParts/PushDataPrefix/MinPushSize on item lists with lengths 0,1,2,3,74..77,254..257,65535,65536 and random mixes; (3) every push form x every boundary length complete, cut by one byte, cut to the header, cut to one byte, hostile 32-bit lengths, declared lengths at the top of each length field's range (250..255, 0xfffa..0xffff, 0xfffffff9..0xffffffff, 2^31 +- few) with 0/1/3/100 bytes present, zero-length pushes; (4) grammar-generated scripts (non-push opcodes, pushes of all forms incl. non-minimal) with OP_RETURN at top level / inside IF / after a stray ENDIF, truncated at every position, fixed OP_RETURN shapes, random bytes; (4b) conditional depth: every sequence of up to 3 (thorough: 4) tokens from {IF, NOTIF, VERIF, VERNOTIF, ELSE, ENDIF, NOP, VER, VERIFY, RETURN, push of 63, push of 68 6a} followed by OP_RETURN and each of 12 tails (empty, direct / PUSHDATA1 / 2 / 4 headers without their data, a complete push, ENDIF, ENDIF + truncated push, ENDIF RETURN + truncated push, CHECKSIG, CHECKSIG + truncated push) - Go side all, model side all with up to 2 (3) prefix tokens and a seed-chosen sixteenth of the longer ones; random conditional-heavy token sequences + OP_RETURN + random bytes ending in an incomplete push; unformatted tails of 2..256 bytes (65535 / 65536 in thorough); every parse (this family and all others) compared on the Go side with an independent statement of the parser's grammar (tokens, depth moved by IF / NOTIF / ENDIF only, early end at a depth-0 OP_RETURN, ErrorOnCheckSig only at opcode positions); (5) ASM round trip on generated domain scripts and every non-push opcode, NewFromASM / NewFromHexString / UnmarshalJSON on arbitrary token strings. distinct = distinct input bytes / item-length vector / string; non-trivial = non-empty input"
+	// ---- (6) scripts of exactly a standard template's length and head with pushes / cut pushes in the other places (shaped.go)
+	c.PerShard = 120
+	shapedFamily(r, c.Thorough() || search)
+
+	c.Stats.Rule = "(1) every byte string of length <= 2 run through DecodeParts, Parse (with and without ErrorOnCheckSig), Unparse, ToASM, NewFromASM, hex and JSON on the Go side (65 793; <= 3 bytes in thorough, Go-level predicates only), the model evaluated on all of length <= 1 plus the seed-chosen residue class mod 8 of the 2-byte ones in quick and on all in thorough; (2) EncodeParts/PushDataPrefix/MinPushSize on item lists with lengths 0,1,2,3,74..77,254..257,65535,65536 and random mixes; (3) every push form x every boundary length complete, cut by one byte, cut to the header, cut to one byte, hostile 32-bit lengths, declared lengths at the top of each length field's range (250..255, 0xfffa..0xffff, 0xfffffff9..0xffffffff, 2^31 +- few) with 0/1/3/100 bytes present, zero-length pushes; (4) grammar-generated scripts (non-push opcodes, pushes of all forms incl. non-minimal) with OP_RETURN at top level / inside IF / after a stray ENDIF, truncated at every position, fixed OP_RETURN shapes, random bytes; (4b) conditional depth: every sequence of up to 3 (thorough: 4) tokens from {IF, NOTIF, VERIF, VERNOTIF, ELSE, ENDIF, NOP, VER, VERIFY, RETURN, push of 63, push of 68 6a} followed by OP_RETURN and each of 12 tails (empty, direct / PUSHDATA1 / 2 / 4 headers without their data, a complete push, ENDIF, ENDIF + truncated push, ENDIF RETURN + truncated push, CHECKSIG, CHECKSIG + truncated push) - Go side all, model side all with up to 2 (3) prefix tokens and a seed-chosen sixteenth of the longer ones; random conditional-heavy token sequences + OP_RETURN + random bytes ending in an incomplete push; unformatted tails of 2..256 bytes (65535 / 65536 in thorough); every parse (this family and all others) compared on the Go side with an independent statement of the parser's grammar (tokens, depth moved by IF / NOTIF / ENDIF only, early end at a depth-0 OP_RETURN, ErrorOnCheckSig only at opcode positions); (5) ASM round trip on generated domain scripts and every non-push opcode, NewFromASM / NewFromHexString / UnmarshalJSON on arbitrary token strings; (6) template-shaped scripts: for each of the 17 locking and 3 unlocking script templates of harness/scriptnear (P2PKH, P2PK 33/65, P2SH, bare multisig 0-of-1 .. 16-of-16, both data carriers, four inscriptions, sig+key / sig / OP_0 sigs) the scripts of EXACTLY the template's length in which one byte position (every position of the templates of up to 160 bytes; the ends and token starts of the bigger ones) holds OP_0 / OP_DATA_1 / 2 / 75 / OP_PUSHDATA1 / 2 / 4 / OP_1NEGATE / OP_RETURN / the old byte +- 1 / a direct push reaching exactly to the end, one short, one beyond (thorough: every value), in which the last 1..6 bytes are one push of each form complete / one byte short / far short / cut inside its length field (written over the template as it is, and behind the template's push re-declared to end where they begin), in which the first 1..3 bytes or 1..5 tokens are the template's and the rest is one push of each form reaching the end / one beyond / one short, and in which the last two bytes are every pair of 16 push headers and template opcodes; plus scriptnear's token-level near-misses of the same templates (other lengths) - Go side all, model side the last two positions and the 1..3-byte tails of the small templates and a seed-chosen slice (1/4 .. 1/64) of the rest; every observed script of every family additionally compared on the Go side with an independent statement of DecodeParts' grammar (verdict, tokens), ToASM's [error] marker on every script that ends inside a push, DecodeStringParts = DecodeParts. distinct = distinct input bytes / item-length vector / string; non-trivial = non-empty input"
 	checkStream()
 	c.Finish()
 }
